@@ -62,6 +62,7 @@ public:
   int NextStmt = 0;
   std::deque<const FunctionDecl *> LambdaQueue;
   std::set<const FunctionDecl *> Emitted;
+  std::set<const FunctionDecl *> Queued;
 
   // ---- helpers ---------------------------------------------------------
   std::string fileOf(SourceLocation L) {
@@ -186,6 +187,13 @@ public:
       if (MD->isVirtual()) J.attribute("virt", true);
       if (MD->isConst()) J.attribute("cm", true);
       J.attribute("cls", qname(MD->getParent()));
+      // instantiated call operator of a generic lambda: not reachable through the LambdaExpr (its call operator
+      // is the dependent template), so emit the specialisation that is actually called
+      if (MD->getParent()->isLambda() && MD->getTemplateInstantiationPattern() && MD->hasBody() &&
+          !MD->isDependentContext() && !Emitted.count(MD) && !Queued.count(MD)) {
+        Queued.insert(MD);
+        LambdaQueue.push_back(MD);
+      }
     }
     if (FD->isExternC()) J.attribute("externC", true);
     // template origin name (primary template's qualified name) if any
